@@ -72,6 +72,49 @@ class Interp7(Interp):
         self.pre = {}      # (fn name, inst id) -> f(interp, st, inst, fn)
         self.post = {}     # (fn name, inst id) -> f(interp, states, inst, fn)
         self.ctype_checked = set()
+        self.havoc_loops = set()   # (fn name, header block name): loops replaced by "all results unknown"
+        self.no_peel = False
+
+    # -- loops without memory effects whose results no checked clause depends on ---------------
+    def havoc_pure_loops(self, fn):
+        """register every loop of fn that neither reads nor writes memory, calls nothing but pure intrinsics and
+        defines no pointer: such a loop is over-approximated by leaving it with unknown results (sound for
+        partial-correctness clauses; saves one invariant inference per incoming state)"""
+        n = 0
+        for L in fn.loops:
+            ok = True
+            for b in L['blocks']:
+                for i in b.insts:
+                    if i.op in ('load', 'store', 'alloca', 'invoke', 'atomicrmw', 'cmpxchg', 'getelementptr'):
+                        ok = False
+                    elif i.op == 'call' and not (i.callee or '').startswith(('llvm.fmuladd', 'llvm.fabs', 'llvm.dbg')):
+                        ok = False
+                    elif i.ty.get('k') == 'ptr':
+                        ok = False
+            if ok and not any(L2 is not L and L2['header'] in L['blocks'] for L2 in fn.loops):
+                self.havoc_loops.add((fn.name, L['header'].name))
+                n += 1
+        return n
+
+    def run_loop(self, fn, L, st, frm, rets):
+        if (fn.name, L['header'].name) in self.havoc_loops:
+            out = []
+            for (b, to) in L['exits']:
+                s = st.fork()
+                for blk in L['blocks']:
+                    for i in blk.insts:
+                        if i.op == 'dbg' or i is blk.term:
+                            continue
+                        if i.ty.get('k') not in (None, 'void'):
+                            s.env[('i', i.id)] = self.top_of_type(s, i.ty, 'hv')
+                out.append((s, b, to))
+            return out
+        return Interp.run_loop(self, fn, L, st, frm, rets)
+
+    def try_peel(self, fn, L, st, frm, rets):
+        if self.no_peel:
+            return None
+        return Interp.try_peel(self, fn, L, st, frm, rets)
 
     # -- <ctype.h>: (*__ctype_b_loc())[c] & mask ---------------------------------------------
     def ext_ctype_b_loc(self, interp, st, i, args):
@@ -583,6 +626,28 @@ def digit_class_hook(sink, rule, name, acc, classes, char_value=None, gaps=None)
         sink.inst(rule, name, 'only digit characters are accumulated', bad is None, w,
                   None if bad is None else 'a character with code in %d..%d can reach the accumulation' % bad)
     return hook
+
+
+def guarded_outptr_rule(rep, rule, f, name, idx):
+    """every store through pointer parameter idx is executed only after the parameter compared unequal to null"""
+    n = 0
+    for i in f.all_insts():
+        if i.op == 'store' and i.ops[1].k == 'arg' and i.ops[1].argno == idx:
+            n += 1
+            ok = False
+            for b in f.blocks:
+                t = b.term
+                if t.op == 'br' and 'f' in t.d and t.ops[0].k == 'inst':
+                    c = f.insts[t.ops[0].id]
+                    if c.op == 'icmp' and c.pred in ('ne', 'eq') and any(o.k == 'arg' and o.argno == idx for o in c.ops) \
+                            and any(o.k == 'null' for o in c.ops):
+                        good = f.bmap[t.d['t'] if c.pred == 'ne' else t.d['f']]
+                        other = f.bmap[t.d['f'] if c.pred == 'ne' else t.d['t']]
+                        if good is not other and len(good.preds) == 1 and f.dominates_block(good, i.block):
+                            ok = True
+            rep.inst(rule, name, 'store through the end pointer is guarded by a null test', ok, i.where(),
+                     'the end pointer parameter is written without a dominating test against NULL')
+    return n
 
 
 def bool_root(f, v):
